@@ -23,6 +23,9 @@ def cases(tier, seed):
     prof = dict(for_=5, if_ct=4, switch=3, assign=4, decl=4, call=4, gates=4, mods=0, depth=3, custom=2)
     for _ in range(n):
         out.append(dict(src=gen.random_program(rnd, prof)[0], family="random-control"))
+    for s in gen.strided_slice_cases():
+        if "def f(" in s:       # views of strided / inner-axis selections passed by reference and written through
+            out.append(dict(src=s, family="array-arguments-strided-views"))
     m = 0
     for s in gen.array_cases(rnd, 500 if tier == "quick" else 6000):
         if "def f(" in s:
